@@ -52,6 +52,9 @@ SEAL_GUARD_APPEND = "if base.treats_as_sealed(self):\n        raise base.WritePe
 
 VARIANTS = {
     'C01': [
+        fire('negative-index-not-normalised', L, 'List._set_item_without_permission_check', 'if index < 0:\n            index += len(self)', 'pass', 'C01.g', '#position'),
+        fire('validate-after-detach-list', L, 'List._set_item_without_permission_check', 'new_value = self._formalized_value(index, value)\n    if index < len(self):', 'if isinstance(old_value, base.TopologyAware):\n        old_value.sym_setparent(None)\n    new_value = self._formalized_value(index, value)\n    if index < len(self):', 'C01.e', 'List._set_item_without_permission_check'),
+        fire('reindex-only-when-notifying', L, 'List._remove_item_without_permission_check', 'self._update_children_index()', 'if flags.is_change_notification_enabled():\n        self._update_children_index()', 'C01.c', '_remove_item_without_permission_check'),
         fire('sweep-deletes-live-items', L, 'List._on_change', 'if pg_typing.MISSING_VALUE == item:',
              'if item is None or pg_typing.MISSING_VALUE == item:', 'C01.d', '_on_change'),
         fire('drop-detach-on-replace', L, 'List._set_item_without_permission_check',
@@ -75,6 +78,7 @@ VARIANTS = {
         silent('rename-local-old_value-dict', D, 'Dict._set_item_without_permission_check', 'field', 'fld', count=0),
     ],
     'C02': [
+        fire('sort-then-reverse', L, 'List.sort', 'super().sort(key=key, reverse=reverse)', 'super().sort(key=key)\n    if reverse:\n        super().reverse()', 'C02.g', 'List.sort'),
         fire('noop-on-equality', D, 'Dict._set_item_without_permission_check',
              'if old_value is value:', 'if old_value == value:', 'C02.d', 'Dict._set_item_without_permission_check#noop'),
         fire('sort-key-string', L, 'List._sym_rebind', 'key=lambda x: x[0]', 'key=lambda x: str(x[0])',
@@ -93,6 +97,8 @@ VARIANTS = {
         silent('rename-lambda-var', L, 'List._sym_rebind', 'key=lambda x: x[0]', 'key=lambda kv: kv[0]'),
     ],
     'C03': [
+        fire('union-returns-converted', VS, 'Union._apply', 'return c.apply(converter(value), allow_partial=allow_partial, child_transform=child_transform, root_path=root_path)', 'return converter(value)', 'C03.g', 'Union._apply'),
+        fire('custom-apply-skips-for-complete', D, 'Dict.custom_apply', 'if self._allow_partial == allow_partial:', 'if self._allow_partial == allow_partial or not self.sym_partial:', 'C03.f', 'Dict.custom_apply#partial'),
         fire('skip-apply-in-formalize', L, 'List._formalized_value',
              'if self._value_spec and flags.is_type_check_enabled():', 'if False:', 'C03.a', 'List._formalized_value'),
         fire('primitive-append-unbounded', L, 'List._set_item_without_permission_check',
@@ -114,6 +120,7 @@ VARIANTS = {
         silent('rename-local-allow_partial', L, 'List._formalized_value', 'allow_partial = ', 'ap = ',),
     ],
     'C04': [
+        fire('bound-truthiness', 'pyglove/core/typing/key_specs.py', 'ListKey.extend', 'if base.max_value is None:', 'if not base.max_value:', 'C04.f', 'ListKey.extend'),
         fire('flip-min-polarity', VS, 'Number._is_compatible',
              'other.min_value < self._min_value', 'other.min_value > self._min_value', 'C04.b', 'Number._is_compatible#min_value'),
         fire('accept-unbounded-other', VS, 'Number._is_compatible',
@@ -129,6 +136,7 @@ VARIANTS = {
                'other.min_value < self._min_value', 'self._min_value > other.min_value'),
     ],
     'C05': [
+        fire('registry-lookup-memo', 'pyglove/core/utils/json_conversion.py', '_TypeRegistry.class_from_typename', 'cls = self._type_to_cls_map.get(type_name, None)', 'cls = self._resolved.setdefault(type_name, self._type_to_cls_map.get(type_name, None))', 'C05.h', 'class_from_typename'),
         fire('int-key-decoded-conditionally', B, '_get_key', "if k.startswith('n_:'):", "if k.startswith('n_:') and k[3:].isdigit():",
              'C05.c', '_get_key'),
         fire('from-json-consumes-input', 'pyglove/core/utils/json_conversion.py', 'from_json', 'json_value = dict(json_value)', 'pass', 'C05.l', 'json_conversion.from_json'),
@@ -147,6 +155,9 @@ VARIANTS = {
         silent('int-with-explicit-base', B, '_get_key', 'return int(k[3:])', 'return int(k[3:], 10)'),
     ],
     'C06': [
+        fire('list-hash-memo', L, 'List.sym_hash', 'return base.sym_hash(', 'self._hash_valid = True\n    return base.sym_hash(', 'C06.f', 'List.sym_hash'),
+        fire('object-hash-by-values', 'pyglove/core/symbolic/object.py', 'Object.sym_hash', 'base.sym_hash(self._sym_attributes)', 'tuple((base.sym_hash(v) for v in self.sym_values()))', 'C06.e', 'Object.sym_hash'),
+        fire('eq-drops-length-test', B, 'eq', 'if len(left) != len(right):', 'if False:', 'C06.g', 'eq'),
         fire('hash-order-sensitive', D, 'Dict.sym_hash', 'frozenset(', 'tuple(', 'C06.a', 'Dict.sym_hash'),
         fire('dict-children-builtin-hash', D, 'Dict.sym_hash', '(k, base.sym_hash(v))', '(k, hash(v))', 'C06.a', 'Dict.sym_hash#children'),
         silent('list-hash-explicit-loop', L, 'List.sym_hash',
@@ -159,12 +170,16 @@ VARIANTS = {
         silent('rename-local-lkeys', B, 'lt', 'lkeys', 'left_keys', count=0),
     ],
     'C07': [
+        fire('ref-clone-returns-self', 'pyglove/core/symbolic/ref.py', 'Ref._sym_clone', 'return Ref(self._value, allow_partial=self.allow_partial)', 'return self', 'C07.c', 'Ref._sym_clone'),
+        fire('relocate-by-equality', B, 'Symbolic._relocate_if_symbolic', 'value.sym_parent is not self', 'value.sym_parent != self', 'C07.e', '_relocate_if_symbolic'),
         fire('list-clone-drops-partial', L, 'List._sym_clone', 'allow_partial=self._allow_partial, ', '', 'C07.a', 'List._sym_clone#allow_partial'),
         fire('functor-clone-aliases-set', FU, 'Functor._sym_clone', 'set(self._default_args)', 'self._default_args', 'C07.d', 'Functor._sym_clone#_default_args'),
         fire('deepcopy-shallow', B, 'Symbolic.__deepcopy__', 'self.sym_clone(deep=True, memo=memo)', 'self.sym_clone(deep=False)', 'C07.b', 'Symbolic.__deepcopy__'),
         silent('rename-local-source', L, 'List._sym_clone', 'source', 'items_', count=0),
     ],
     'C08': [
+        fire('as-sealed-none-inherits', FL, 'as_sealed', 'return thread_local.thread_local_value_scope(_TLS_SEALED, sealed, None)', 'return thread_local.thread_local_value_scope(_TLS_SEALED, sealed if sealed is not None else is_under_sealed_scope(), None)', 'C08.g', 'as_sealed'),
+        fire('list-born-sealed-shortcut', L, 'List.__init__', 'sealed=False, root_path=root_path)', 'sealed=sealed, root_path=root_path)', 'C08.f', 'List.__init__#born-sealed'),
         fire('append-without-seal-guard', L, 'List.append', 'if base.treats_as_sealed(self):', 'if False:', 'C08.b', 'List.append'),
         fire('seal-guard-after-write', L, 'List.clear', 'if base.treats_as_sealed(self):', 'super().clear()\n    if base.treats_as_sealed(self):',
              'C08.b', 'List.clear'),
@@ -182,6 +197,7 @@ VARIANTS = {
                more=[('and update:', 'and upd:'), ('[update]', '[upd]')]),
     ],
     'C09': [
+        fire('subscription-memoised', 'pyglove/core/symbolic/object.py', 'Object._subscribes_field_updates', 'return self._on_change.__code__ is not Object._on_change.__code__', 'cls = self.__class__\n    if cls._SUBSCRIBES is None:\n        cls._SUBSCRIBES = cls._on_change.__code__ is not Object._on_change.__code__\n    return cls._SUBSCRIBES', 'C09.g', 'Object._subscribes_field_updates'),
         fire('append-without-notify', L, 'List.append', 'self._notify_field_updates([update])', 'pass', 'C09.a', 'List.append'),
         fire('memo-not-reset', B, 'Symbolic._notify_field_updates', "target._set_raw_attr('_sym_missing_values', None)", 'pass',
              'C09.b', '_notify_field_updates#_sym_missing_values'),
@@ -198,6 +214,7 @@ VARIANTS = {
                more=[('and update:', 'and upd:'), ('[update]', '[upd]')]),
     ],
     'C10': [
+        fire('from-value-parses-int', VL, 'KeyPath.from_value', 'elif isinstance(value, int):\n        value = cls(value)', 'elif isinstance(value, int):\n        value = cls.parse(str(value))', 'C10.c', 'from_value'),
         fire('quote-chars-differ', VL, 'KeyPath._has_special_chars', "['[', ']', '.']", "['[', ']']", 'C10.a', 'KeyPath.parse'),
         fire('second-path-formatter', VL, 'KeyPath.__init__', 'self._path_str = None', "self._path_str = None if parent is None else str(parent) + '.x'", 'C10.d', 'KeyPath#_path_str'),
         fire('graft-by-reference', VL, 'KeyPathSet.update', 'copy_lib.deepcopy(value)', 'value', 'C10.e', 'KeyPathSet.update'),
@@ -207,6 +224,8 @@ VARIANTS = {
                more=[('keys.extend(', 'ks.extend('), ('self._keys = keys', 'self._keys = ks')]),
     ],
     'C11': [
+        fire('seed-truthiness-setup', 'pyglove/core/geno/random.py', 'Random._setup', 'if self.seed is None:', 'if not self.seed:', 'C11.z', 'random.py'),
+        fire('sweeping-cursor-none', 'pyglove/core/geno/sweeping.py', 'Sweeping._propose', 'next_dna = self.dna_spec.next_dna(self._last_proposed_dna)\n    if next_dna is None:\n        raise StopIteration()\n    self._last_proposed_dna = next_dna\n    return next_dna', 'self._last_proposed_dna = self.dna_spec.next_dna(self._last_proposed_dna)\n    if self._last_proposed_dna is None:\n        raise StopIteration()\n    return self._last_proposed_dna', 'C11.e', 'Sweeping._propose'),
         fire('drop-lower-bound', GC, 'Choices.validate', 'if dna.value < 0 or dna.value >= len(self.candidates):', 'if dna.value >= len(self.candidates):',
              'C11.a', 'Choices.validate#candidates[dna.value]'),
         fire('random-ignores-sorted', GC, 'Choices._random_dna', 'if self.sorted:', 'if False:', 'C11.b', 'Choices._random_dna#Choices.sorted'),
@@ -216,6 +235,9 @@ VARIANTS = {
         silent('chained-comparison-form', GC, 'Choices._next_dna', 'choice_dna.value < 0 or choice_dna.value >= len(self.candidates)', 'choice_dna.value >= len(self.candidates) or choice_dna.value < 0'),
     ],
     'C12': [
+        fire('clone-carries-lookup-table', GB if False else 'pyglove/core/geno/base.py', 'DNA._sym_clone', 'other._spec = self._spec', 'other._spec = self._spec\n    other._decision_by_id_cache = self._decision_by_id_cache', 'C12.e', 'DNA._sym_clone'),
+        fire('id-skips-conditional-key', 'pyglove/core/geno/base.py', 'DNASpec.id', 'self._id = utils.KeyPath(ConditionalKey(self.index, len(parent.candidates)), parent.id) + self.location', 'self._id = (utils.KeyPath(ConditionalKey(self.index, len(parent.candidates)), parent.id) if len(parent.candidates) > 1 else parent.id) + self.location', 'C12.f', 'DNASpec.id'),
+        fire('getitem-fast-path', 'pyglove/core/geno/base.py', 'DNA.__getitem__', 'key = key.id\n        return self._decision_by_id[key]', 'if key is self._spec:\n            return self\n        key = key.id\n        return self._decision_by_id[key]', 'C12.f', 'DNA.__getitem__'),
         fire('from-dict-unbound', GB, 'DNA.from_dict', 'return dna.use_spec(dna_spec)', 'return dna', 'C12.c', 'DNA.from_dict'),
         fire('json-key-renamed', GB, 'DNA.from_json', "json_value.get('value')", "json_value.get('val')", 'C12.b', 'compact-json:val'),
         fire('swap-not-rebound', EM, 'Swap.mutate', 'parent_node.children[i].use_spec(parent_node.spec.subchoice(i))', 'pass', 'C12.d', 'Swap.mutate'),
@@ -223,6 +245,7 @@ VARIANTS = {
         silent('rename-local-dict_repr', GB, 'DNA.to_dict', 'accumulated', 'acc', count=0),
     ],
     'C13': [
+        fire('decode-parks-dna', 'pyglove/core/hyper/categorical.py', 'Choices._decode', 'choices.append(self._candidate_templates[sub_dna.value].decode(geno.DNA(None, sub_dna.children)))', 'cand = self._candidate_templates[sub_dna.value]\n            cand.set_dna(geno.DNA(None, sub_dna.children))\n            choices.append(cand())', 'C13.e', 'Choices._decode'),
         fire('decode-flag-copied', HO, 'ObjectTemplate._decode', "value = rebind_dict['']\n            copied = False", "value = rebind_dict['']\n            copied = True", 'C13.a', 'ObjectTemplate._decode#value.rebind'),
         fire('encode-isinstance', HO, '_encode', 'type(input_value) is not type(template_value)', 'not isinstance(input_value, type(template_value))', 'C13.a', '_encode#exact-type'),
         fire('dna-spec-drops-sorted', HC, 'Choices.dna_spec', 'sorted=self.choices_sorted, ', '', 'C13.b', 'Choices.dna_spec#sorted'),
@@ -231,6 +254,8 @@ VARIANTS = {
         silent('rename-local-rebind_dict', HO, 'ObjectTemplate._decode', 'derived_values', 'dvs', count=0),
     ],
     'C14': [
+        fire('last-negated-slice', 'pyglove/ext/evolution/selectors.py', 'Last.select', 'return inputs[max(0, len(inputs) - n):]', 'return inputs[-n:]', 'C14.g', 'Last.select#slice'),
+        fire('segmentwise-ignores-sorted', 'pyglove/ext/evolution/recombinators.py', 'SegmentWise.recombine', 'dp.is_subchoice and (dp.distinct or dp.sorted)', 'dp.is_subchoice and dp.distinct', 'C14.g', 'SegmentWise.recombine'),
         fire('mutate-without-clone', EM, 'Swap.mutate', 'dna = dna.clone(deep=True)', 'pass', 'C14.a', 'Swap.mutate'),
         fire('global-random', ER, '_merge_multi_choice', 'rand.choices(parent_decisions', 'random.choices(parent_decisions', 'C14.c', '_merge_multi_choice'),
         fire('reflected-operand-order', EB, 'Operation.__radd__', 'Concatenation([x, self])', 'Concatenation([self, x])', 'C14.d', 'Operation.__radd__'),
@@ -248,6 +273,7 @@ VARIANTS = {
         silent('rename-local-init_population', EB, 'Evolution.recover', 'generation_id', 'gen_id', count=0),
     ],
     'C16': [
+        fire('group-truthiness', 'pyglove/core/tuning/local_backend.py', '_InMemoryBackend.__init__', 'if group is None:', 'if not group:', 'C16.e', '_InMemoryBackend.__init__'),
         fire('write-outside-lock', LB, '_InMemoryResult._complete_trial', "with self._lock:\n        self._num_trials_by_status['COMPLETED'] += 1",
              "self._num_trials_by_status['COMPLETED'] += 1\n    with self._lock:\n        pass", 'C16.a', "_complete_trial#_num_trials_by_status"),
         fire('status-guard-dropped', LB, '_InMemoryFeedback._add_measurement', "if self._trial.status != 'PENDING':", 'if False:', 'C16.c', '_add_measurement'),
@@ -263,6 +289,9 @@ VARIANTS = {
                more=[('best is None', 'cur is None'), ('best.final_measurement', 'cur.final_measurement')]),
     ],
     'C17': [
+        fire('permission-restore-missing', PE, 'permission', 'if outter_perm is None:\n            utils.thread_local_del(_TLS_CODE_RUN_PERMISSION)', 'pass', 'C17.a', 'permission'),
+        fire('exit-fn-before-restore', 'pyglove/core/hyper/dynamic_evaluation.py', 'dynamic_evaluate', 'base.set_dynamic_evaluate_fn(old_evaluate_fn, per_thread)\n        if not has_errors and exit_fn is not None:\n            exit_fn()', 'if not has_errors and exit_fn is not None:\n            exit_fn()\n        base.set_dynamic_evaluate_fn(old_evaluate_fn, per_thread)', 'C17.h', 'dynamic_evaluate'),
+        fire('propagate-plain-values', 'pyglove/core/utils/contextual.py', 'with_contextual_override', 'with contextual_override() as current_context:\n        pass', 'current_context = all_contextual_values()', 'C17.i', 'with_contextual_override'),
         fire('restore-default-not-saved', TL, 'thread_local_value_scope', 'thread_local_set(key, previous_value)', 'thread_local_set(key, initial_value)', 'C17.b', 'thread_local_value_scope'),
         fire('no-finally', TL, 'thread_local_arg_scope', 'try:\n        thread_local_push(key, current_kwargs)\n        yield current_kwargs\n    finally:\n        thread_local_pop(key)',
              'thread_local_push(key, current_kwargs)\n    yield current_kwargs\n    thread_local_pop(key)', 'C17.a', 'thread_local_arg_scope'),
@@ -275,6 +304,9 @@ VARIANTS = {
         silent('rename-key-constant-usage', TL, 'thread_local_value_scope', 'previous_value', 'prev', count=0),
     ],
     'C18': [
+        fire('specified-by-default-equality', 'pyglove/core/symbolic/functor.py', 'Functor._on_change', 'if update.new_value == pg_typing.MISSING_VALUE:', 'if update.new_value == pg_typing.MISSING_VALUE or update.field.default_value == update.new_value:', 'C18.h', 'Functor._on_change'),
+        fire('duplicate-check-truthiness', 'pyglove/core/symbolic/object.py', 'Object.__init__', 'if k in field_args:', 'if k in field_args and field_args[k]:', 'C18.i', 'Object.__init__'),
+        fire('reset-early-return', 'pyglove/core/symbolic/class_wrapper.py', '_SubclassedWrapperBase._on_reset', 'self.__dict__.clear()', 'if not self.wrapped_cls_initialized:\n        return\n    self.__dict__.clear()', 'C18.i', '_on_reset'),
         fire('on-change-early-return', FU, 'Functor._on_change', 'continue', 'return', 'C18.g', 'Functor._on_change'),
         fire('clone-aliases-specified', FU, 'Functor._sym_clone', 'set(self._specified_args)', 'self._specified_args', 'C18.b', 'Functor._sym_clone#_specified_args'),
         fire('override-scope-deletes', FU, 'Functor._apply_call_time_overrides_to_members',
@@ -284,6 +316,9 @@ VARIANTS = {
         silent('rename-local-list_args', FU, 'Functor._parse_call_time_overrides', 'missing_required_arg_names', 'missing_names', count=0),
     ],
     'C19': [
+        fire('all-misses-import', PE, 'CodePermission.ALL', ' | CodePermission.IMPORT', '', 'C19.f', 'IMPORT'),
+        fire('permission-scope-inner-wins', PE, 'permission', 'perm = outter_perm', 'pass', 'C19.h', 'permission'),
+        fire('in-process-timeout-thread', 'pyglove/core/coding/execution.py', 'maybe_sandbox_call', 'else:\n        return func(*args, **kwargs)', 'else:\n        import concurrent.futures\n        return concurrent.futures.ThreadPoolExecutor(1).submit(func, *args, **kwargs).result(timeout)', 'C19.i', 'thread-dispatch'),
         fire('ungate-augassign', PA, '_CodeValidator.generic_visit', '(ast.Assign, ast.AugAssign, ast.AnnAssign, ast.NamedExpr)', '(ast.Assign, ast.AnnAssign, ast.NamedExpr)', 'C19.a', 'gate:ASSIGN:AugAssign'),
         fire('visitor-early-return', PA, '_CodeValidator.generic_visit', 'super().generic_visit(node)', 'if isinstance(node, ast.JoinedStr):\n        return\n    super().generic_visit(node)', 'C19.b', 'generic_visit'),
         fire('exec-before-parse', EX, 'evaluate', 'code_block = parsing.parse(code, permission)', 'code_block = parsing.parse(code, None)', 'C19.c', 'evaluate'),
@@ -293,6 +328,7 @@ VARIANTS = {
         silent('rename-local-code_block', EX, 'evaluate', 'last_expr', 'tail_expr', count=0),
     ],
     'C20': [
+        fire('escape-memoised', 'pyglove/core/views/html/base.py', 'Html.escape', 'if isinstance(s, str):\n        return _escape(s)', 'if isinstance(s, str):\n        if s not in _CACHE:\n            _CACHE[s] = _escape(s)\n        return _CACHE[s]', 'C20.e', 'Html.escape'),
         fire('unescaped-key', TV, 'HtmlTreeView.object_key', 'Html.escape(str(root_path.key))', 'str(root_path.key)', 'C20.a', 'object_key'),
         fire('tooltip-raw-content', TV, 'HtmlTreeView.summary', 'summary_tooltip_fn(value, parent=parent', 'summary_tooltip_fn(value, content=str(value), parent=parent', 'C20.a', 'summary'),
         fire('mutates-rendered-dict', TV, 'HtmlTreeView.complex_value', 'del name', 'del name\n    kv.pop(None, None)', 'C20.c', 'complex_value'),
